@@ -21,6 +21,8 @@ CHECKS = {
              ref="4.4", tech="symbolic execution of norminette.__main__.main with a nondeterministic analysis stub (symx + z3); replay through the real CLI"),
  "C05": dict(text="Tokenizer totality by one-step induction: for every window of <=N symbolic ASCII characters and every start position one get_next_token() call returns and raises nothing (solver-decided per path class).",
              ref="4.5", tech="symbolic execution of Lexer.get_next_token (symx + z3), one-step induction over the token stream"),
+ "C08": dict(text="Comparator laws (irreflexive, asymmetric, transitive, total up to the printed key) of the real Error.__lt__/Highlight.__lt__ and ascending printed order after the real Errors.__iter__ sort, for symbolic diagnostics with unbounded integer positions; every witness is pushed through both real formatters and the outputs compared.",
+             ref="4.8", tech="symbolic execution of the comparators and of list.sort driven by them (symx + z3 LIA); formatters compared natively on solver witnesses"),
  "C09": dict(text="Token/end/diagnostic positions equal an independent position scanner for every window of <=N symbolic characters and every symbolic start (line, col); induction over tokens extends it to whole files.",
              ref="4.9", tech="symbolic execution of the lexer with symbolic start column/line (symx + z3 LIA queries) against an independent position oracle"),
  "C11": dict(text="Differential check of the real literal parsers against an independent C11 6.4.4/6.4.5 recogniser: every literal of <=N symbolic characters (numeric and quoted alphabets) in a valid family is one clean token; every member of the malformed families M1..M15 carries its diagnostic.",
